@@ -294,6 +294,8 @@ class MEscape(Monitor):
 def _defn_successors(defn):
     """state name -> set of possible next names, at the top level of a definition."""
     out = {}
+    if not isinstance(defn, dict) or not isinstance(defn.get("States"), dict):
+        return out
     for name, st in defn.get("States", {}).items():
         s = set()
         if isinstance(st, dict):
@@ -392,7 +394,7 @@ class MHist(Monitor):
                             if pexited and pout is not None and d.get("input") != pout:
                                 self._flag(w, arn, "input_output_mismatch", "%s entered with %r but %s exited with %r" % (nm, d.get("input"), pname, pout))
                         else:
-                            st0 = sm["definition"].get("StartAt") if sm else None
+                            st0 = sm["definition"].get("StartAt") if (sm and isinstance(sm["definition"], dict)) else None
                             if st0 is not None and nm != st0:
                                 self._flag(w, arn, "bad_transition", "first state entered is %s, StartAt is %s" % (nm, st0))
                         self.top[arn] = [nm, None, False]
@@ -698,7 +700,7 @@ class MJoin(Monitor):
                 for sname, sarn in w.machines.items():
                     if rec is not None and rec.get("stateMachineArn") == sarn:
                         sm = w.sc["machines"][sname]["definition"]
-                if sm is None:
+                if not isinstance(sm, dict) or not isinstance(sm.get("States"), dict):
                     continue
                 groups = {}
                 for i, ev in enumerate(h):
